@@ -44,7 +44,7 @@ CLAIMS.update({
 })
 
 CLAIMS.update({
- "C24": ("constant/interval agreement between Pack's guards, its bit packing and Scan's decoding, extracted from SSA",
+ "C24": ("constant/interval agreement between Pack's guards, its bit packing and Scan's decoding, extracted from SSA; scan-mode agreement of Tables.ScanBytes with the parameter the patterns were parsed with",
          "Decides that every value Pack stores fits the bit field it is shifted into for every number of states/actions Pack accepts, that Scan decodes with the inverse constants, that the ASCII guard agrees with the byte split, that tables the simple decode cannot represent (checkpoints, several start states) are rejected, and that the package keeps no state between calls. Necessary conditions of scanner/table agreement.",
          "lex.Tables layout (Dfa row-major by NumSymbols, symbol 0 = end of input) as documented in lex/lex.go.",
          "3.5, 3.6, 4 (C24)"),
@@ -167,19 +167,19 @@ EXTRA = {
  "C06": "trailing-nullable component of the rule-class key; cast-action key coverage; seen-set de-duplication of remapped marker states; final-state guard; lock-step of the two rule copies; injectivity of lookahead-row signature elements; memo-key agreement with generated lookahead()",
  "C07": "lost-write analysis of range copies (trie minimisation); phase coverage of terminal-transition follow sets; exhaustion of collecting loops; who-may-call rule for Lexer.Next; propagation of unresolved trie nodes; loop-carried scratch copy of deep lookahead; scan-termination sibling check of lookahead rows",
  "C08": "decision-table extraction of pickLookahead (120 polarity sequences) and of ruleAction's planner branch; memo-key agreement; per-item re-initialisation of the negation flag in generateTables",
- "C09": "cursor-minus-constant clause on the size flow of Tables.Scan (rune mode advances by a variable width)",
+ "C09": "cursor-minus-constant clause on the size flow of Tables.Scan (rune mode advances by a variable width); scan-mode agreement of Tables.ScanBytes with the parameter the patterns were parsed with",
  "C10": "finite-state exploration of in-place range filters (len(out)-i); call-order of class assembly; Offset/Column lock-step; field coverage of rebuilt CharsetOptions",
  "C11": "reserved-token constant agreement of canInlineRules; stale-offset check of rewind; reader/writer agreement of the compressed rune map; checkpoint reset on every edge into the scan loop; declaration-implies-maintenance formulas for line/lineOffset in the lexer template; end-of-input cycle check of the generator; single-line token comments; decision table of rune folding; lost-write analysis of range copies in the lexer compiler",
  "C12": "cursor step discipline; reader/writer agreement of the compressed rune map; checkpoint reset; declaration-implies-maintenance formulas for line/lineOffset; end-of-input cycle check of the generator",
  "C13": "terminal-boundary comparison audit; separator placement under the recursion flag; path guard of dropped Empty children; alias wrapping of named set slots; once-only renumbering of shared token-set nodes",
  "C14": "scratch bit-set reset scopes; name-based provenance of Arg.TakeFrom; path guard of dropped Empty children; terminal-boundary comparison audit (48 sites); wrapper order of convertRules; escape analysis through callees that retain slices; renumbering coverage",
  "C15": "all-paths reachability of the set-contribution test; first-match shape of the input seeding loop; copy-source guard of named-set slots",
- "C16": "marker-free remap counter; Pos coverage of extracted references; sharing-key and renumbering field coverage; comma-ok discipline of ActionVars.Remap; name propagation out of nested groups; top-level invariant of rhsRule.top (stores are nil, tested with isTopLevel, or another rule's .top)",
- "C17": "free-name guard of the synthetic TokenSet category; once-per-key emission of Go declarations; interning-pair rule; decision-table agreement of NeedsSession with the template's session struct; all-paths enumeration of file selection against template imports; call/definition arity agreement on template trees; template guard-formula rules for struct fields, node type identifiers and predicate chains (all truth assignments of the option atoms); guard-formula agreement of every `ctx, ` argument with the callee's parameter and the enclosing function's scope; separator-in-slice condition of the import alias elision",
+ "C16": "marker-free remap counter; Pos coverage of extracted references; sharing-key and renumbering field coverage; comma-ok discipline of ActionVars.Remap; name propagation out of nested groups; top-level invariant of rhsRule.top (stores are nil, tested with isTopLevel, or another rule's .top); free-key test of map copies under a rewritten (suffix-stripped) key",
+ "C17": "free-name guard of the synthetic TokenSet category; once-per-key emission of Go declarations; interning-pair rule; decision-table agreement of NeedsSession with the template's session struct; all-paths enumeration of file selection against template imports; call/definition arity agreement on template trees; template guard-formula rules for struct fields, node type identifiers and predicate chains (all truth assignments of the option atoms); guard-formula agreement of every `ctx, ` argument with the callee's parameter and the enclosing function's scope; separator-in-slice condition of the import alias elision; identifier registration discipline of explicit token IDs",
  "C18": "global map aliased through struct fields; mutating methods of sync containers held in package-level variables; ordered-comparison requirement for comparators that discharge a map iteration",
  "C19": "constant propagation of stream.recoveryMode; histogram reset range; end-of-input guard of the token-skipping loop; nil-stack guard of the js token stream",
  "C20": "must-write analysis of Init (and of parse() for Parser) for every run-state field of Lexer/Parser/TokenStream",
- "C21": "fresh-backing-array analysis of copied field records; child test of addNode; save/restore dominance; sibling check of the two Tarjan implementations; unconditional rule-class key components; compare-and-store agreement of min updates in syntax; residue-with-quotient rule for the bit test of generated selectors; equality of merged list expressions including arrow types",
+ "C21": "fresh-backing-array analysis of copied field records; child test of addNode; save/restore dominance; sibling check of the two Tarjan implementations; unconditional rule-class key components; compare-and-store agreement of min updates in syntax; residue-with-quotient rule for the bit test of generated selectors; equality of merged list expressions including arrow types; root node adopts every reported node",
  "C22": "lookup-index guard; in-progress memo reachability and mark-before-descend dominance; valid-anchor guard for optional nodes; Origin coverage of every syntax.Expr literal; next-element bound of range loops; sentinel inside the follow-set universe",
  "C23": "source-cursor bounds of the grammar lexer; sentinel-index guards in verbose conflict explanations; memoised recursions of the compiler; no success return of a change handler bypasses typecheck; provenance of la-set elements as possibly-sentinel indices",
  "C25": "in-place merge exploration; min-update idiom and Tarjan sibling checks",
@@ -189,7 +189,7 @@ EXTRA = {
 }
 
 CLAIMS.update({
- "C26": ("dominance/loop-nesting/loop-range/operand-role rules over util/graph: min-update idiom, sibling check of the two Tarjan implementations, SCC stack pairing, pivot position of Warshall's loops, matrix cell codec, edge direction of Transpose, in-progress sentinel of LongestPath",
+ "C26": ("dominance/loop-nesting/loop-range/operand-role rules over util/graph: min-update idiom, sibling check of the two Tarjan implementations, SCC stack pairing, pivot position of Warshall's loops, matrix cell codec, edge direction of Transpose, in-progress sentinel of LongestPath and descent into every successor",
          "Decides structural necessary conditions of the four graph routines: every low-link update of Tarjan is a true running minimum and the post-descent update propagates lowLink[child]; a component is emitted exactly under lowLink[v]==index[v] and its members leave onStack before the stack is cut; Closure's intermediate vertex is the outermost loop variable and the update joins the two tested edges; AddEdge/HasEdge/Graph agree on the cell i*n+e; Transpose sizes and fills the list of the edge's target with its source; LongestPath marks in-progress vertices -1, flags a cycle exactly on meeting one and returns nil under the flag. It does not decide that the computed components, closure or path are correct on every graph.",
          "Graphs are runtime values; order of components (reverse topological) and maximality of the longest path are algorithmic and not examined.",
          "A.2 (C26)"),
